@@ -1127,6 +1127,10 @@ impl Hist {
 	/// not followed by the model (scan is outside it): used for the C17 expiry oracle only.
 	fn update_state(&mut self, i: usize) {
 		let tip = self.s.node.height();
+		self.learn(i);
+		let view = self.node_view(i);
+		let chain = self.chain_outs(i);
+		let parent = self.active(i);
 		let inst = self.s.wallets[i].inst.clone();
 		let mask = self.s.wallets[i].mask.clone();
 		let r = guarded(|| owner::update_wallet_state(inst, mask.as_ref(), &None, false));
@@ -1136,11 +1140,13 @@ impl Hist {
 			Ok(Ok(_)) => vec![0],
 		};
 		let unreserved = self.unreserved_spend[i];
+		// the model follows it when it succeeded and the chain is shorter than the scan's look-back
+		let nomodel = rc != vec![0] || tip >= 100;
 		self.record(
 			i,
-			json!({"k": "update_state", "tip": tip}),
+			json!({"k": "update_state", "tip": tip, "parent": parent, "view": view, "chain": chain}),
 			rc,
-			json!({"nomodel": true, "unreserved_spend": unreserved}),
+			json!({"nomodel": nomodel, "unreserved_spend": unreserved}),
 		);
 	}
 
@@ -1158,8 +1164,9 @@ impl Hist {
 		let w_pay = if self.profile == "c04" { 14 } else { 6 };
 		let w_restore = 2;
 		let w_scan = 2;
+		let w_update = 4;
 		// the bands below plus a tail of 4 (reopen or nothing)
-		let total = 14 + 12 + 3 + w_init + 14 + 14 + 12 + 8 + w_cancel + w_cbkey + w_fork + w_episode + w_pay + w_restore + w_scan + 4;
+		let total = 14 + 12 + 3 + w_init + 14 + 14 + 12 + 8 + w_cancel + w_cbkey + w_fork + w_episode + w_pay + w_restore + w_scan + w_update + 4;
 		let roll = self.p.below(total);
 		let mut acc = 0;
 		let mut in_band = |w: u64| {
@@ -1217,6 +1224,8 @@ impl Hist {
 			self.restore(i);
 		} else if in_band(w_scan) {
 			self.scan(i);
+		} else if in_band(w_update) {
+			self.update_state(i);
 		} else if self.p.chance(1, 2) {
 			// closing and opening the wallet forgets the active account (it is not persisted):
 			// for the model a reopen is a switch to the default account
